@@ -369,6 +369,11 @@ func genE2E(r *vRng, tier string, w *bufio.Writer) {
 		if c.preview*c.fps+c.trig == 0 {
 			c.trig = 1
 		}
+		if id%12 == 5 {
+			// max-secs below min-secs: the daemon must refuse the configuration
+			c.min = r.pick(1, 2, 5)
+			c.max = c.min - 1
+		}
 		if c.windowSet == 0 {
 			c.window = 1
 		} else {
